@@ -36,9 +36,9 @@ func genCfg(r *Run, odd bool, i int) hCfg {
 		Scopes:      pick(rng, [][]string{{"openid"}, {"openid", "profile"}, {"email", "openid", "offline_access"}}),
 		Prefix:      pick(rng, []string{"", "", "app1", "my-app_2"}),
 		IDHeader:    pick(rng, []string{"authorization", "x-id-token", "Authorization"}), IDPreamble: pick(rng, []string{"Bearer", "", "Token"}),
-		Access:      rng.Intn(2) == 0, AccHeader: pick(rng, []string{"x-access-token", "x-at"}), AccPreamble: pick(rng, []string{"", "Bearer"}),
-		Logout:      rng.Intn(3) != 0, LogoutPath: pick(rng, []string{"/logout", "/app/logout"}), LogoutURI: pick(rng, []string{"https://idp.example.com/logout", "https://idp.example.com/end?x=1&y=2"}),
-		Store:       pick(rng, []string{"mem", "mem", "redis"}),
+		Access: rng.Intn(2) == 0, AccHeader: pick(rng, []string{"x-access-token", "x-at"}), AccPreamble: pick(rng, []string{"", "Bearer"}),
+		Logout: rng.Intn(3) != 0, LogoutPath: pick(rng, []string{"/logout", "/app/logout"}), LogoutURI: pick(rng, []string{"https://idp.example.com/logout", "https://idp.example.com/end?x=1&y=2"}),
+		Store: pick(rng, []string{"mem", "mem", "redis"}),
 	}
 	if rng.Intn(8) == 0 {
 		// "for all header/preamble configurations": the same header name for both tokens loads fine
@@ -73,10 +73,10 @@ type browser struct {
 }
 
 type histGen struct {
-	s        *hSim
-	p        profile
-	browsers []*browser
-	oldSids  []string
+	s         *hSim
+	p         profile
+	browsers  []*browser
+	oldSids   []string
 	oldStates []string
 }
 
@@ -379,7 +379,33 @@ func (g *histGen) step() {
 		} else if len(g.oldStates) > 0 && rng.Intn(2) == 0 {
 			state = pick(rng, g.oldStates)
 		}
-		switch rng.Intn(3) {
+		k := rng.Intn(4)
+		if k == 3 {
+			// directed near miss: the callback of a login in progress, under that login's own cookie, with a state that is
+			// almost the issued one (prefix, extension, case, padding, encoding) and an attacker's code
+			var pend []*browser
+			for _, x := range g.browsers {
+				if x.pending != nil && x.cookie != "" {
+					pend = append(pend, x)
+				}
+			}
+			if len(pend) == 0 {
+				k = 0
+			} else {
+				v := pick(rng, pend)
+				st := v.pending.State
+				near := pick(rng, []string{st[:len(st)-1], st[:1], st[:len(st)/2], st + "x", st + "%00", strings.ToUpper(st), strings.ToLower(st), "%20" + st, st + "+", st[1:], st[:len(st)-1] + "%", "x" + st})
+				base.Scheme, base.Host = sch, host
+				base.Path = path + "?" + pick(rng, []string{"code=injected&state=" + near, "state=" + near + "&code=injected"})
+				base.Cookie = g.cookieHeader(v.cookie)
+				base.IDP = g.idpFor(v.pending.Nonce, true)
+				g.s.r.Dist["attacker-near-miss-state"]++
+				o := g.s.do(base)
+				g.after(b, base, o)
+				return
+			}
+		}
+		switch k {
 		case 0: // callback with swapped / replayed / forged state
 			base.Scheme, base.Host = sch, host
 			base.Path = path + "?" + pick(rng, []string{"code=stolen&state=" + state, "state=" + state, "code=x", "State=" + state + "&Code=x", "code=x;state=" + state, "code=%zz&state=" + state,
